@@ -1133,7 +1133,7 @@ def run(ctx):
         plan = [("each", 1, 5, True), ("concat", 1, 5, False)]
         extra = (2, 6, ctx.seed % 16, 16)     # a seed-chosen 1/16 of the thorough space on top
     else:
-        plan = [("each", 2, 6, True), ("each", 2, 7, False), ("concat", 2, 6, False)]
+        plan = [("each", 2, 5, True), ("each", 2, 6, False), ("concat", 2, 6, False)]
         extra = None
     mult = max(p[1] for p in plan)
     maxlen = max(p[2] for p in plan)
